@@ -64,6 +64,7 @@ type source struct {
 	calls        int  // Read+Seek calls so far
 	failAt       int  // 1-based index of the failing call; 0 = never
 	failWithData bool // the failing Read delivers bytes together with its error
+	failEOF      bool // the failing call reports io.EOF (a source that ends early) instead of a generic error
 	frag         int  // >0: at most frag bytes per Read; <0: seeded random short reads
 	eofTogether  bool // return io.EOF together with the last bytes
 	rng          uint64
@@ -89,6 +90,9 @@ func (s *source) Read(p []byte) (int, error) {
 			n := copy(p, s.data[s.pos:])
 			s.pos += int64(n)
 			return n, errSource
+		}
+		if s.failEOF {
+			return 0, io.EOF
 		}
 		return 0, errSource
 	}
@@ -325,6 +329,9 @@ func init() {
 				src.rng ^= uint64(atoi(o[5:])) * 0x9e3779b97f4a7c15
 			case o == "eof":
 				src.eofTogether = true
+			case strings.HasPrefix(o, "faile="):
+				src.failAt = atoi(o[6:])
+				src.failEOF = true
 			case strings.HasPrefix(o, "faild="):
 				src.failAt = atoi(o[6:])
 				src.failWithData = true
